@@ -95,6 +95,8 @@ type Def struct {
 	Fields   []Field   `json:"fields,omitempty"`   // struct: in order; message: sorted by index
 	Branches []Branch  `json:"branches,omitempty"` // union: sorted by discriminator
 	Comment  string    `json:"comment,omitempty"`
+	// Imported definitions live in a separate .bop file that the program imports.
+	Imported bool `json:"imported,omitempty"`
 }
 
 func (d *Def) Unsigned() bool { return d.Base == "" || d.Base[0] == 'u' || d.Base == "byte" }
@@ -107,9 +109,44 @@ func (d *Def) BaseType() string {
 }
 
 type Schema struct {
-	Name   string `json:"name"`
-	Defs   []*Def `json:"defs"`
-	byName map[string]*Def
+	Name string `json:"name"`
+	Defs []*Def `json:"defs"`
+	// Combined selects the generator's combined import mode for programs that import a
+	// library file (separate mode otherwise).
+	Combined bool `json:"combined,omitempty"`
+	byName   map[string]*Def
+}
+
+// HasLib reports whether some definitions are imported from a library file.
+func (s *Schema) HasLib() bool {
+	for _, d := range s.Defs {
+		if d.Imported {
+			return true
+		}
+	}
+	return false
+}
+
+// PrintApp prints the importing file: an import line and the program's own definitions.
+func (s *Schema) PrintApp(libFile string) string {
+	own := &Schema{Name: s.Name}
+	for _, d := range s.Defs {
+		if !d.Imported {
+			own.Defs = append(own.Defs, d)
+		}
+	}
+	return "import \"" + libFile + "\"\n" + own.PrintLayout(Layout{Indent: "    "})
+}
+
+// PrintLib prints the imported file with its go_package constant.
+func (s *Schema) PrintLib(goPackage string) string {
+	lib := &Schema{Name: s.Name + "lib"}
+	for _, d := range s.Defs {
+		if d.Imported {
+			lib.Defs = append(lib.Defs, d)
+		}
+	}
+	return "const string go_package = \"" + goPackage + "\";\n" + lib.PrintLayout(Layout{Indent: "    "})
 }
 
 func (s *Schema) index() {
